@@ -176,9 +176,55 @@ fn step(st: &mut St, ws: &[&str]) -> String {
     out
 }
 
+/// Small scope, exhaustively: every history of exactly `depth` ops from a fixed 18-op alphabet over
+/// the 4-hash universe {0, 1, c, c+1} (c = the ceiling for the scaled class, 2 for the num class),
+/// for both types x {scaled = 2^63 (ceiling 2), num = 2} x tracking on/off.
+fn gen_exhaustive(o: &mut Out, depth: u32) {
+    for tree in [false, true] {
+        for is_scaled in [true, false] {
+            for track in [false, true] {
+                let (scaled, num) = if is_scaled { (1u64 << 63, 0) } else { (0, 2) };
+                let mh = max_hash_for_scaled(scaled);
+                let c = if is_scaled { mh } else { 2 };
+                let uni = [0u64, 1, c, c + 1];
+                let mut alphabet: Vec<String> = vec![];
+                for h in uni {
+                    alphabet.push(format!("add {} 1", h));
+                    alphabet.push(format!("add {} 0", h));
+                    alphabet.push(format!("rm {}", h));
+                    alphabet.push(format!("o.add {} 2", h));
+                }
+                alphabet.push("merge".into());
+                alphabet.push("clear".into());
+                let n = alphabet.len() as u64;
+                let total = n.pow(depth);
+                for code in 0..total {
+                    o.case(&format!(
+                        "{} num={} scaled={} mh={} track={} onum={} otrack={}",
+                        if tree { "tree" } else { "vec" },
+                        num,
+                        scaled,
+                        mh,
+                        track as u8,
+                        num,
+                        // the second sketch tracks iff the low bit of the code says so: both mixes occur
+                        ((code & 1) as u8) ^ (track as u8)
+                    ));
+                    let mut c = code;
+                    for _ in 0..depth {
+                        o.op(&alphabet[(c % n) as usize]);
+                        c /= n;
+                    }
+                }
+            }
+        }
+    }
+}
+
 fn gen(a: &Args) {
     let mut r = Rng::new(a.seed);
     let mut o = Out::new();
+    gen_exhaustive(&mut o, if a.tier == "thorough" { 4 } else { 3 });
     let ncases = if a.cases > 0 {
         a.cases
     } else if a.tier == "thorough" {
